@@ -366,6 +366,9 @@ def run_matrix(prop, oracle_name, jobs, result, label, cap=60000):
     tasks = [(prop, oracle_name, cfg, mode, bound, cap) for cfg, mode, bound in jobs]
     if not tasks:
         result.harness_errors.append(f'vacuous run (no configuration selected): {label}')
+    # largest schedule spaces first: the wall time of a run is that of its longest configuration
+    tasks.sort(key=lambda t: -((t[3] == 'L') * 1000 + t[2].get('w', 1) * 100 + t[2].get('n', 0) * 10 + t[2].get('b', 0)
+                               + 5 * len(t[2].get('consumers', [1]))))
     total = collections.Counter()
     samples, capped = [], []
     for cfg, mode, bound, st, viols, sample in common.pmap(_task, tasks, timeout=3000):
